@@ -253,7 +253,14 @@ func keysFromMessage(val reflect.Value, path []string, start int) ([]string, err
 	if val.Kind() != reflect.Struct {
 		return nil, fmt.Errorf("path %q traversal error: cannot lookup field %q (index %d in the path) in a %q value", strings.Join(path, "."), path[start], start, val.Kind())
 	}
-	valField := val.FieldByName(strings.Title(path[start]))
+	// FieldByName panics if the field is promoted through a nil embedded pointer.
+	var valField reflect.Value
+	if sf, ok := val.Type().FieldByName(strings.Title(path[start])); ok {
+		var err error
+		if valField, err = val.FieldByIndexErr(sf.Index); err != nil {
+			return nil, fmt.Errorf("path %q traversal error: cannot lookup field %q (index %d in the path): %v", strings.Join(path, "."), path[start], start, err)
+		}
+	}
 
 	if valField.Kind() != reflect.Slice {
 		return keysFromMessage(valField, path, start+1)
